@@ -242,6 +242,14 @@ def rule_attrmap(ctx: Ctx) -> RuleResult:
     rr.inst("fresh composite", True, {"receiver": rtxt[:80]})
     if not rtxt.startswith("CompositeCanvas("):
         rr.add(finding("GUARD", fi, c, f"the attribute map is applied to `{rtxt[:60]}`, not to a fresh CompositeCanvas wrapped around the child's canvas", construct="map applied to a non-fresh canvas"))
+    # AttrWrap (the compatibility wrapper) expresses "no focus attribute" as None in its constructor; its setter has to
+    # map None to "no focus map" as well - the map {None: None} draws the focused widget with the attribute None
+    sfa = p.func("urwid.widget.attr_wrap.AttrWrap.set_focus_attr")
+    prm = sfa.params[1]
+    none_test = any(isinstance(x, ast.Compare) and isinstance(x.ops[0], (ast.Is, ast.IsNot)) and isinstance(x.left, ast.Name) and x.left.id == prm and isinstance(x.comparators[0], ast.Constant) and x.comparators[0].value is None for x in ast.walk(sfa.node))
+    rr.inst("AttrWrap.set_focus_attr(None)", True, {"tests_None": none_test})
+    if not none_test:
+        rr.add(finding("GUARD", sfa, sfa.node, f"set_focus_attr() wraps its argument into a focus map without testing it for None: set_focus_attr(None) stores {{None: None}} and the focused widget is drawn with the attribute None instead of going back to attr (what the constructor and the docstring say None means)", construct="set_focus_attr stores {None: None} for None"))
     return rr
 
 
@@ -335,6 +343,7 @@ _CM = "urwid/display/common.py"
 _RW = "urwid/display/_raw_display_base.py"
 _HT = "urwid/display/html_fragment.py"
 MUTANTS = [
+    Mut("attrwrap-focus-attr-none-mapped", "urwid/widget/attr_wrap.py", "AttrWrap.set_focus_attr", "self.set_focus_map(None if focus_attr is None else {None: focus_attr})", "self.set_focus_map({None: focus_attr})", "GUARD|widget.attr_wrap.AttrWrap.set_focus_attr"),
     Mut("markup-merge-reads-empty-run-list", "urwid/util.py", "_tagmarkup_recurse", "            if ral and al:", "            if ral:", "GUARD|util._tagmarkup_recurse"),
     Mut("focus-map-getter-by-truthiness", "urwid/widget/attr_map.py", "AttrMap.get_focus_map", "        if self._focus_map is not None:", "        if self._focus_map:", "SENTINEL|widget.attr_map.AttrMap.get_focus_map"),
     Mut("erase-guard-consults-basic-spec", _RW, "urwid.display._raw_display_base.Screen.draw_screen", "            a = self._pal_attrspec.get(a, a)", "            a = self._palette.get(a, (a,))[0]", "TAB|display._raw_display_base.Screen.draw_screen"),
